@@ -14,6 +14,7 @@ func init() {
 			"CH-SIB / FE-BOOL: Key and AsLokiAPI both go through forEach, whose visibility table is without-hides / non-nil-by-restricts",
 			"PV-FRESH: helpers that insert into a by/without set get nil or a clone",
 			"PV-WRITEBACK for struct-valued map elements; PV-WHOLE: the step's samples of the aggregating iterators are only reset and appended to",
+			"PV-PAIR: the sample operation of a binary operation is applied only to a pair matched by grouping key; CH-SIB: all AggregatedLabels implementers agree on the key of the empty set; PV-RESET with the tightened construction-mode exemption; step stamped",
 		},
 		NotDecided: []string{"64-bit hash collisions between distinct encodings", "count conservation as arithmetic"},
 		Rules: func(r *Run) {
